@@ -786,6 +786,40 @@ def gen_repeated_block_program(rng: random.Random) -> List[List[Any]]:
     return blocks
 
 
+def gen_positional_fold_program(rng: random.Random) -> List[List[Any]]:
+    """Folds whose definition stands at DIFFERENT statement positions in different blocks, with statements that define
+    nothing (a step of two fresh ingredients) before and between the definitions - in particular a later block that
+    opens with such a statement after an earlier block had a fold: a fold removes the definition's own tree, wherever
+    it stands, and nothing else (seed C05-m26: removal by remembered statement index with a stale offset)."""
+    def ref(n, amt=None):
+        return {"ref": n, "amt": amt, "off": -1}
+
+    def step(n, *ins):
+        return {"step": [n], "ins": list(ins), "short": False}
+
+    def st(outs, e, named=False):
+        return {"outs": outs, "named": named, "expr": e, "out_offs": []}
+    pairs = [f"{a} {b}" for a in WORDS[:10] for b in ("base", "top", "part", "side", "bit", "glaze")]
+    rng.shuffle(pairs)
+    fresh = iter(pairs)
+
+    def plain():
+        return st([], step(rng.choice(STEPS), ref([next(fresh)]), ref([next(fresh)])))
+    blocks = []
+    for k in range(rng.choice([2, 2, 3])):
+        b = [plain() for _ in range(rng.choice([0, 1, 1, 2]) if k else rng.choice([0, 0, 1]))]
+        for _ in range(rng.choice([1, 1, 2])):
+            name = [next(fresh)]
+            b.append(st([name], step(rng.choice(STEPS), ref([next(fresh)]), ref([next(fresh)])), named=rng.random() < 0.4))
+            if rng.random() < 0.3:
+                b.append(plain())
+            b.append(st([], step("serve", ref(name), ref([next(fresh)]))))
+        if rng.random() < 0.3:
+            b.append(plain())
+        blocks.append(b)
+    return blocks
+
+
 def gen_program(rng: random.Random, **kw: Any) -> List[List[Any]]:
     if not kw and rng.random() < 0.12:
         return gen_chain_program(rng)
